@@ -3447,6 +3447,159 @@ listen_case(long idx)
 }
 
 
+// ================================================================== subset mode
+// Only some of the three events have a callback - from the start, or after the
+// others were taken away again while the pipe is alive.  Whatever is
+// registered must behave as the property says for it alone: ADD_PRE, ADD_POST
+// and REM_POST at most once per pipe and in that order among the ones that
+// are observed, nothing for an event without a callback, and - the pipe has
+// carried a message, so it did reach the ADD_POST stage - REM_POST (when it
+// has a callback) no later than the return of nng_socket_close.
+#define SUBP 8
+typedef struct {
+	pthread_mutex_t mx;
+	uint32_t        id[SUBP];
+	int             n[SUBP][4]; // per pipe and event
+	int             last[SUBP];
+	int             order_bad[SUBP];
+	int             npipes;
+} subrec;
+
+static void
+subset_cb(nng_pipe p, nng_pipe_ev ev, void *arg)
+{
+	subrec *sr = arg;
+	if (ev < 1 || ev > 3) return;
+	uint32_t id = nng_pipe_id(p);
+	pthread_mutex_lock(&sr->mx);
+	int k = -1;
+	for (int i = 0; i < sr->npipes; i++) {
+		if (sr->id[i] == id) k = i;
+	}
+	if (k < 0 && sr->npipes < SUBP) {
+		k         = sr->npipes++;
+		sr->id[k] = id;
+	}
+	if (k >= 0) {
+		sr->n[k][ev]++;
+		if (sr->last[k] >= (int) ev) sr->order_bad[k] = 1;
+		sr->last[k] = (int) ev;
+	}
+	pthread_mutex_unlock(&sr->mx);
+}
+
+static void
+subset_case(long idx)
+{
+	static const char *evn3[4] = { "", "ADD_PRE", "ADD_POST", "REM_POST" };
+	static const char *pairs[][2] = { { "pair0", "pair0" }, { "pair1", "pair1" }, { "pull", "push" }, { "bus", "bus" }, { "rep", "req" } }; // (observed socket, its peer)
+	vf_rng r;
+	vf_rng_seed(&r, vf_seed, (uint64_t) idx ^ 0x5355425345ULL);
+	int  mask    = 1 + (int) (idx % 7);                 // bit e-1 set: event e has a callback (all 7 non-empty subsets)
+	bool dynamic = ((idx / 7) & 1) != 0;                // all three first, the others removed while the pipe is alive
+	bool dialing = ((idx / 14) & 1) != 0;               // the observed socket dials / listens
+	int  pi      = (int) ((idx / 28) % 5);
+	int  tran    = (int[]){ VF_T_INPROC, VF_T_IPC, VF_T_TCP, VF_T_INPROC }[(idx / 140) % 4];
+	char set[40] = "";
+	for (int e = 1; e <= 3; e++) {
+		if (mask & (1 << (e - 1))) snprintf(set + strlen(set), sizeof(set) - strlen(set), "%s%s", set[0] ? "+" : "", evn3[e]);
+	}
+	vf_case_begin(idx, "subset: callbacks for {%s} only (%s), observed %s socket %s over %s", set, dynamic ? "the others removed while the pipe is alive" : "from the start", pairs[pi][0], dialing ? "dials" : "listens", vf_tran_names[tran]);
+	const vf_proto *pa = vf_proto_by_name(pairs[pi][0]), *pb = vf_proto_by_name(pairs[pi][1]);
+	nng_socket      a, b;
+	subrec          sr;
+	memset(&sr, 0, sizeof(sr));
+	pthread_mutex_init(&sr.mx, NULL);
+	if (pa == NULL || pb == NULL || pa->open(&a) != 0 || pb->open(&b) != 0) vf_harness_fail("subset open");
+	nng_socket_set_ms(b, NNG_OPT_SENDTIMEO, 5000);
+	nng_socket_set_ms(a, NNG_OPT_RECVTIMEO, 5000);
+	for (int e = 1; e <= 3; e++) {
+		if (dynamic || (mask & (1 << (e - 1)))) {
+			if (nng_pipe_notify(a, (nng_pipe_ev) e, subset_cb, &sr) != 0) vf_harness_fail("notify");
+		}
+	}
+	int rv = dialing ? vf_connect(b, a, tran) : vf_connect(a, b, tran);
+	if (rv != 0) vf_harness_fail("subset connect: %s", nng_strerror(rv));
+	// one message from the peer to the observed socket: the pipe it arrives
+	// on is in service, and it is the pipe that is judged
+	nng_msg *m;
+	if (nng_msg_alloc(&m, 8) != 0) vf_harness_fail("msg");
+	rv = nng_sendmsg(b, m, 0);
+	if (rv != 0) {
+		nng_msg_free(m);
+		vf_harness_fail("subset send: %s", nng_strerror(rv));
+	}
+	m = NULL;
+	rv = nng_recvmsg(a, &m, 0);
+	if (rv != 0) vf_harness_fail("subset recv: %s", nng_strerror(rv));
+	uint32_t jid = nng_pipe_id(nng_msg_get_pipe(m));
+	nng_msg_free(m);
+	if (dynamic) {
+		// take the others away again (REM_POST-side last so that the set never
+		// lacks an earlier event that a NEW pipe could miss - there is none here)
+		for (int e = 3; e >= 1; e--) {
+			if (!(mask & (1 << (e - 1)))) nng_pipe_notify(a, (nng_pipe_ev) e, NULL, NULL);
+		}
+	}
+	int before[4] = { 0 }, jk = -1;
+	pthread_mutex_lock(&sr.mx);
+	for (int i = 0; i < sr.npipes; i++) {
+		if (sr.id[i] == jid) jk = i;
+	}
+	for (int e = 1; e <= 3 && jk >= 0; e++) before[e] = sr.n[jk][e];
+	pthread_mutex_unlock(&sr.mx);
+	// how the pipe goes: socket close, or the peer leaves first
+	int how = (int) vf_below(&r, 3);
+	if (how == 1) {
+		nng_socket_close(b);
+		for (int i = 0; i < 3000 && vf_pipe_count(a) > 0; i++) vf_msleep(1);
+	} else if (how == 2) {
+		nng_pipe_close((nng_pipe) { jid });
+	}
+	nng_socket_close(a);
+	if (how != 1) nng_socket_close(b);
+	pthread_mutex_lock(&sr.mx);
+	if (jk < 0) {
+		for (int i = 0; i < sr.npipes; i++) {
+			if (sr.id[i] == jid) jk = i;
+		}
+	}
+	int cnt[4] = { 0 }, obad = 0;
+	for (int e = 1; e <= 3 && jk >= 0; e++) cnt[e] = sr.n[jk][e];
+	if (jk >= 0) obad = sr.order_bad[jk];
+	for (int i = 0; i < sr.npipes; i++) {
+		if (sr.id[i] != jid) vf_stat("subset_other_pipes_seen", 1);
+	}
+	pthread_mutex_unlock(&sr.mx);
+	char key[128];
+	const char *hows = how == 0 ? "socket-close" : how == 1 ? "peer-left" : "pipe-close";
+	for (int e = 1; e <= 3; e++) {
+		bool reg  = (mask & (1 << (e - 1))) != 0;
+		int  n    = cnt[e];
+		// an event registered the whole time fires exactly once; one that was
+		// registered only during the first phase (dynamic) at most once and
+		// never after its removal
+		if (reg && n != 1) {
+			snprintf(key, sizeof(key), "C14/subset/%s-%s/%s/%s", evn3[e], n == 0 ? "missing" : "repeated", dynamic ? "others-removed" : "from-start", hows);
+			vf_violation(key, "callbacks registered for {%s} only (%s): %s fired %d times for the pipe of a %s socket (%s, %s) that carried a message and whose socket has been closed (expected exactly once, no later than the return of nng_socket_close)", set,
+			    dynamic ? "the other callbacks were removed while the pipe was alive" : "from the start", evn3[e], n, pairs[pi][0], dialing ? "dialer" : "listener", vf_tran_names[tran]);
+		} else if (!reg && !dynamic && n != 0) {
+			snprintf(key, sizeof(key), "C14/subset/%s-without-callback", evn3[e]);
+			vf_violation(key, "an event without a registered callback was delivered (%s, %d times)", evn3[e], n);
+		} else if (!reg && dynamic && (n > 1 || n != before[e])) {
+			snprintf(key, sizeof(key), "C14/subset/%s-after-removal", evn3[e]);
+			vf_violation(key, "%s fired %d times (%d before its callback was removed)", evn3[e], n, before[e]);
+		}
+	}
+	if (obad) {
+		snprintf(key, sizeof(key), "C14/subset/order/%s", dynamic ? "others-removed" : "from-start");
+		vf_violation(key, "callbacks for {%s}: events of one pipe observed out of order or repeated", set);
+	}
+	vf_stat("subset_cases", 1);
+	vf_stat("cases", 1);
+	vf_class("subset/{%s}/%s/%s/%s/%s", set, dynamic ? "others-removed" : "from-start", dialing ? "dialer" : "listener", hows, vf_tran_names[tran]);
+}
+
 // ================================================================== main
 int
 main(int argc, char **argv)
@@ -3482,6 +3635,8 @@ main(int argc, char **argv)
 			redial_case(idx);
 		} else if (!strcmp(mode, "listen")) {
 			listen_case(idx);
+		} else if (!strcmp(mode, "subset")) {
+			subset_case(idx);
 		} else {
 			vf_harness_fail("unknown mode %s", mode);
 		}
